@@ -125,10 +125,10 @@ theorem C11_classical_like (sel : List Seg) (pat : List Glob.Tok) (n : Node) (s 
   simp [classical, h]
 
 /-- ordering comparisons hold between two integers or two finite floats only -/
-theorem C11_ordered_int (a b : Int) :
+theorem C11_ordered_int (a b : Int) (ha : intFits64 a = true) (hb : intFits64 b = true) :
     isOrdered (.int b) (.int a) .gt = decide (a > b) ∧ isOrdered (.int b) (.int a) .gte = decide (a ≥ b) ∧
     isOrdered (.int b) (.int a) .lt = decide (a < b) ∧ isOrdered (.int b) (.int a) .lte = decide (a ≤ b) := by
-  simp only [isOrdered, Op.satisfies, compareInt]
+  simp only [isOrdered, Op.satisfies, compareInt, ha, hb, Bool.true_and]
   by_cases h1 : a < b
   · have h2 : ¬ a > b := by omega
     have h3 : ¬ a ≥ b := by omega
@@ -141,6 +141,12 @@ theorem C11_ordered_int (a b : Int) :
     · have h3 : a ≥ b := by omega
       have h4 : a ≤ b := by omega
       simp [h1, h2, h3, h4]
+
+/-- an integer that does not fit int64 (an unsigned value above 2^63−1) is never ordered and never
+    equal: the Go code used to panic there (C09) -/
+theorem C11_ordered_int_beyond_int64 (a b : Int) (op : Op) (h : intFits64 a = false ∨ intFits64 b = false) :
+    cmpOp op (.int b) (.int a) = false := by
+  cases op <;> rcases h with h | h <;> simp [cmpOp, isOrdered, Node.deepEq, h]
 
 theorem C11_ordered_mixed (a : Int) (b : UInt64) (op : Op) :
     isOrdered (.int a) (.float b) op = false ∧ isOrdered (.float b) (.int a) op = false := by
